@@ -5,12 +5,26 @@ Proof      : coq/Props/C20.v -- C20_refine_s3 / C20_refine_local / C20_backends_
              alphabet is write / read / exists / list / delete / size / mtime / open_file / read_file_with_etag /
              the CAS writer, and  Open k prog = open_seekable(k) followed by ANY seek/read program on the reader it
              returned -- one operation of the history, so it interleaves with writes, overwrites and deletes of
-             the same key on the same backend;  C20_open_after_history (open_seekable after ANY history answers
-             from the key's CURRENT content, FileNotFoundError exactly when the key holds nothing now),
-             C20_open_ranges_in_objects (every ranged GET of every open of every history names an object that
-             exists, within its size);
+             the same key on the same backend.  The local theorems constrain only the keys a history WRITES (no
+             written key is a directory of another): probes -- exists / read / size / mtime / delete / open -- may
+             name anything, also a directory of a written key or a path below one ("existence of exact keys only").
+             C20_open_after_history (open_seekable after ANY history answers from the key's CURRENT content,
+             FileNotFoundError exactly when the key holds nothing now), C20_open_ranges_in_objects (every ranged GET
+             of every open of every history names an object that exists, within its size);
              C20_range_equiv / C20_range_negative_seek / C20_seek_invalid_whence (every content, every seek/read
-             program), C20_retry_* / C20_s3_retry_* (every outcome script).
+             program), C20_retry_* / C20_s3_retry_* (every outcome script), C20_s3_retry_definitive (every error on an
+             INDEPENDENT list of definitive S3 answers surfaces with the attempt that met it).
+             Faults inside histories (Model/BackendFault.v = the retry loop composed with every backend method as the
+             source wraps it, a positional fault plan per operation, faults BEFORE or AFTER the request took effect):
+             C20_s3_faulty_masks_partial -- transient faults, at most max_retries per operation, at any request (a PUT
+             that landed and was answered with an error, any page of a listing, get_size's HEAD, any ranged GET of a
+             reader) change no result of any history, PROVIDED the request with index max_retries (the operation's last
+             attempt) is answered and CAS writes are fault-free.  The statement without the first proviso
+             (C20_s3_faulty_masks_full) is FALSE of the code as it is: C20_s3_faulty_masks_refuted -- a not-found
+             answer is retried like a transient error (C20_not_found_retried, C20_not_found_immediate_refuted) and
+             uses up the budget, so one transient error on request max_retries+1 of a read of a missing key
+             surfaces instead of FileNotFoundError (finding retry-contract:not-found-uses-up-budget, reported by the
+             oracle below on every run).  C20_cas_put_fault_surfaces: write_file_cas is not under the retry.
              Regenerated from the source on every run:  Gen/GenS3.v (key mapping, listing Prefix, prefix
              stripping, constructor prefix, create_storage_backend's join, not-found / CAS / permanent code
              literals, retry defaults) and Gen/GenRange.v (S3RangeFile.seek / readinto / readall integer kernels,
@@ -24,26 +38,38 @@ Tie        : correspondence, real code vs Coq model (vm_compute):
                              reader every ranged GET's first/last) vs Model/BackendTrace.v;
                              LocalStorageBackend (temp dir) and S3StorageBackend (fakes3) vs Model/Backend.v
                              on enumerated + random op sequences over a 13-key space with sibling-prefix
-                             names, issued through ONE or TWO backend instances over the same store; also
-                             raw-string sequences OUTSIDE the canonical domain (leading/trailing
-                             slashes, a key that is a directory of another, exists("dir/"), key = prefix)
+                             names and 8 probe-only names (directories of keys, paths below keys), issued through
+                             up to four backend instances over ONE or TWO stores that use the same bucket, prefix
+                             and key names (compared store by store); also raw-string sequences OUTSIDE the
+                             canonical domain (leading/trailing slashes, a key that is a directory of another,
+                             exists("dir/"), key = prefix)
+               faults        S3StorageBackend under positional fault plans (ANY faults: transient / permanent /
+                             not-found / precondition codes, transport exceptions; before / after the effect; any
+                             request index; every operation incl. the CAS writer and the raw reader) vs
+                             Model/BackendFault.v: every result (value, contract error, WHICH exception surfaced)
+                             and the final bucket
                range         S3RangeFile vs Model/Range.v (over Gen/GenRange.v): all programs up to a length bound
                              on sizes 0,1,2, sampled programs on 1 MiB+1; bytes, positions, every Range header
                retry         real with_s3_retry (time.sleep virtualised) vs Model/Retry.v: all outcome
-                             scripts of length <= 7 over {good, transient, permanent, non-retryable};
+                             scripts of length <= 6 (+ length 7) over {good, transient, permanent, non-retryable};
                              attempts, result, sleeps;  is_permanent_s3_error vs the model on a code list
 Oracles    : implementation only, judged by the property text (no model involved):
-               backends-differ / spec   local vs S3 vs a dict store + a 15-line reference file on every in-domain
+               backends-differ / spec   local vs S3 vs a dict store (one per store) + a 15-line reference file on every
                                         sequence: histories mix write / CAS write / overwrite / delete with
                                         open_seekable + seek/read program (through the BufferedReader and on the raw
-                                        reader underneath), open_file, size, read ... on hot keys, with empty and
-                                        non-empty prefixes and leading-slash spellings, on one or two instances
+                                        reader underneath), open_file, size, read, exists ... on hot keys AND on names
+                                        that are not keys (a directory of a key must not exist, has no size, cannot be
+                                        read or opened, deleting it is a no-op), with empty and non-empty prefixes and
+                                        leading-slash spellings, on one to four instances over one or two stores with
+                                        the same names (nothing learnt about one store may show in another's answers)
                range-not-in-object      every ranged GET an Open issues must name an existing object, within its size
                range-file               S3RangeFile and open_seekable()'s BufferedReader vs a real local file
                                         (FileIO / buffered) on the same content; every Range header in range
-               retry-contract           attempts / result / sleeps of with_s3_retry judged directly; transient faults at
-                                        ANY request index of an operation incl. open_seekable's HEAD and ranged GETs
-                                        (positional plans), and systematically at every
+               retry-contract           attempts / result / sleeps of with_s3_retry judged directly; transient faults
+                                        (<= max_retries per operation, before / after the effect) at ANY request index
+                                        of an operation -- no index is exempt, also not the one that is the retry
+                                        loop's last attempt -- incl. open_seekable's HEAD and ranged GETs, and
+                                        systematically at every
                                         page of multi-page listings (3..7 keys, page size 2; within / beyond the budget;
                                         permanent errors): listing compared as a sorted LIST (duplicates count), request counts
                paged-listing (corr)     the same listings vs Model/Paged.v (retry restarts the whole listing; C20_paged_listing_*)
@@ -70,44 +96,63 @@ THEOREMS = [
     "C20_range_equiv", "C20_range_negative_seek", "C20_seek_invalid_whence",
     "C20_retry_masks", "C20_retry_permanent", "C20_retry_nonretryable", "C20_retry_exhaust",
     "C20_retry_returns_own_value", "C20_retry_raises_own_error",
-    "C20_s3_retry_masks", "C20_s3_retry_permanent", "C20_s3_retry_exhaust",
+    "C20_s3_retry_masks", "C20_s3_retry_permanent", "C20_s3_retry_exhaust", "C20_s3_retry_definitive",
+    "C20_s3_faulty_masks_partial", "C20_s3_faulty_masks_refuted", "C20_not_found_retried", "C20_not_found_immediate_refuted",
+    "C20_cas_put_fault_surfaces",
     "C20_paged_listing_masks", "C20_paged_listing_permanent",
 ]
-REQ = ["DS.Model.Str", "DS.Gen.GenS3", "DS.Gen.GenRange", "DS.Model.Backend", "DS.Model.Range", "DS.Model.Retry", "DS.Model.BackendTrace", "DS.Model.Paged", "DS.Model.C20IO"]
+REQ = ["DS.Model.Str", "DS.Gen.GenS3", "DS.Gen.GenRange", "DS.Model.Backend", "DS.Model.Range", "DS.Model.Retry", "DS.Model.BackendTrace", "DS.Model.Paged", "DS.Model.BackendFault", "DS.Model.C20IO"]
 
 MANIFEST_ENTRY = {
     "level_text": "C20_refine_s3 / C20_refine_local / C20_backends_agree proved in Coq for every operation sequence over canonical "
                   "keys (unbounded length and key space; every S3 prefix; arbitrary foreign objects in the bucket) whose "
                   "alphabet includes open_seekable + any seek/read program as ONE operation of the history (so it interleaves "
-                  "with writes, CAS writes, overwrites and deletes of the same key), open_file and read_file_with_etag; "
+                  "with writes, CAS writes, overwrites and deletes of the same key), open_file and read_file_with_etag; the local "
+                  "theorems constrain the WRITTEN keys only (probes may name directories of keys or paths below keys: exact keys only); "
                   "C20_open_after_history (open_seekable after any history answers from the key's current content), "
                   "C20_open_ranges_in_objects (every ranged GET of every open names an existing object within its size), "
                   "C20_range_equiv for every content and seek/read program (bytes, positions, negative target = error, every "
                   "Range within 0<=first<=last<size), C20_retry_* for every outcome script (masking within budget, permanent "
-                  "errors surface at once, exhaustion after exactly max+1 attempts, nothing swallowed or invented); key "
+                  "errors surface at once, exhaustion after exactly max+1 attempts, nothing swallowed or invented), "
+                  "C20_s3_retry_definitive (an independent list of definitive S3 errors surfaces with the attempt that met it); "
+                  "C20_s3_faulty_masks_partial: the retry loop composed with every backend method (Model/BackendFault.v) -- transient "
+                  "faults before or after the effect, at most max_retries per operation, at any request of any operation of any "
+                  "history change no result, PROVIDED the request with index max_retries of each operation is answered and CAS "
+                  "writes are fault-free; the statement without the first proviso is REFUTED (C20_s3_faulty_masks_refuted: a not-found "
+                  "answer is retried and uses up the budget -- C20_not_found_retried -- so one transient error on request "
+                  "max_retries+1 of a read of a missing key surfaces; finding retry-contract:not-found-uses-up-budget); "
+                  "C20_cas_put_fault_surfaces (write_file_cas is not under the retry); key "
                   "mapping, listing Prefix, prefix stripping, code literals, retry defaults, S3RangeFile's seek / readinto / "
                   "readall kernels and open_seekable's wiring (key and size source of the reader) are regenerated from the "
                   "source on every run; models tied to LocalStorageBackend / S3StorageBackend / S3RangeFile / with_s3_retry by "
-                  "differential execution over an in-memory S3 through one or two backend instances; implementation-only "
-                  "oracles search for a failing input",
+                  "differential execution over in-memory S3 stores through one to four backend instances over one or two stores "
+                  "with the same names, with and without injected faults; implementation-only oracles search for a failing input",
     "level_note": "trusted: Coq kernel; translator/gen_s3.py, translator/gen_range.py (+ golden AST digests of the hand-modelled "
                   "functions); a reader is used within one operation (the object does not change while it is read); the CAS "
-                  "writer is modelled only as used correctly in a sequential history (tag just read); the S3 "
+                  "writer is modelled only as used correctly in a sequential history (tag just read) and its conditional PUT is "
+                  "outside the masking theorem (not retried by design); the S3 "
                   "object-store model (strong consistency, GET/HEAD/PUT/DELETE/list-by-string-prefix, NoSuchKey/404) as "
-                  "implemented by harness/lib/fakes3.py; local theorem assumes no key is a directory of another key and no "
-                  "'.'/'..'/empty segments (path normalisation is C17); exists() is compared on exact keys only (the "
-                  "property's wording): exists(<directory>) is True locally and False on S3 without a trailing '/'; "
-                  "BufferedReader is covered by oracles only (its ranged GETs are judged in range, not predicted); faults inside a paginated listing are modelled (Model/Paged.v, theorem + correspondence), "
-                  "faults inside other multi-request operations (exists('dir/'), open_seekable) by oracles only",
+                  "implemented by harness/lib/fakes3.py; local theorem assumes no WRITTEN key is a directory of another written key and no "
+                  "'.'/'..'/empty segments (path normalisation is C17); LocalStorageBackend is hand-modelled (no translator; tied by the "
+                  "backend-local correspondences only); a path spelled with a trailing '/' (exists('data/')) is outside the canonical "
+                  "domain: compared per backend with its model, differences between the backends counted, not judged; "
+                  "BufferedReader is covered by oracles only (its ranged GETs are judged in range, not predicted); the masking theorem "
+                  "carries the proviso stated in level_text -- without it the statement is false of the code (known finding, no small "
+                  "repair: not retrying not-found answers would remove the library's documented tolerance of eventually consistent stores)",
     "technique": "Coq refinement proofs (simulation + induction over operation lists whose alphabet includes open_seekable with "
-                 "a seek/read program) over translator-regenerated kernels + differential correspondence against real "
-                 "backends (one or two instances) over an in-memory S3",
+                 "a seek/read program; the retry loop composed with every backend method under per-request fault plans) over "
+                 "translator-regenerated kernels + differential correspondence against real "
+                 "backends (up to four instances over one or two stores, with and without injected faults) over in-memory S3",
     "design_ref": "DESIGN.md section 5 C20",
 }
 
 KEYS = ["data/x", "data/y.parquet", "data2/x", "database", "dat", "metadata/v1.metadata.json", "metadata/v2.metadata.json",
         "metadata.version-hint.text", "metadata/manifests/m1.avro", "metadata/manifests2", "metadata/inflight/t.inflight", "x", "p"]
 DIRS = ["", "data", "data2", "dat", "metadata", "metadata/manifests", "metadata/inflight", "database", "nosuch", "data/x", "meta"]
+# names that are never WRITTEN but probed (exists / read / size / mtime / delete / open): directories of KEYS, paths below
+# KEYS, nothing at all.  "existence of exact keys only": both backends must answer them as the contract does for a
+# key that holds nothing.
+PROBE_ONLY = ["data", "metadata", "metadata/manifests", "data2", "data/x/below", "x/y", "database/z", "nosuch/k"]
 CONTENTS = [b"", b"a", b"bc", b"xyz1"]
 PREFIXES = [("", []), ("p", []), ("wh/t1", [("wh/t10/data/y", b"o"), ("wh/t1", b"s"), ("zz", b"")]),
             ("wh/t1/", [("wh/t10/data/x", b"o"), ("wh/t1data/x", b"q")]), ("/lead//", [("lead/data/x", b"n")])]
@@ -168,7 +213,8 @@ def err_kind(e: BaseException) -> Tuple[str, ...]:
     return ("exc", type(e).__name__)
 
 
-def apply_op(be: Any, op: Tuple[Any, ...], local_root: Optional[str] = None) -> Tuple[Any, ...]:
+def apply_op(be: Any, op: Tuple[Any, ...], local_root: Optional[str] = None, exc_obs: Any = None) -> Tuple[Any, ...]:
+    """exc_obs: how an exception becomes an observation (default err_kind)."""
     name, path = op[0], op[1]
     try:
         if name == "Write":
@@ -222,7 +268,7 @@ def apply_op(be: Any, op: Tuple[Any, ...], local_root: Optional[str] = None) -> 
                 be.write_file(path, op[2])
             return ("unit",)
     except Exception as e:  # noqa: BLE001 - the error kind IS the observation
-        return err_kind(e)
+        return (exc_obs or err_kind)(e)
     raise ValueError(name)
 
 
@@ -241,15 +287,18 @@ def gen_prog(rng, maxlen: int = 5) -> Tuple[Tuple[Any, ...], ...]:
     return tuple(prog)
 
 
-def gen_op(rng, keys: List[str], dirs: List[str], weights: Optional[List[int]] = None) -> Tuple[Any, ...]:
+def gen_op(rng, keys: List[str], dirs: List[str], weights: Optional[List[int]] = None, probes: Optional[List[str]] = None,
+           modes: Tuple[str, ...] = ("buf", "raw")) -> Tuple[Any, ...]:
+    """probes: names only ever probed, never written (directories of keys, paths below keys)."""
     name = rng.choices(OPS, weights=weights or OP_WEIGHTS)[0]
     if name == "ListDir":
         return (name, rng.choice(dirs))
     if name in ("Write", "WriteCas"):
         return (name, rng.choice(keys), rng.choice(CONTENTS))
+    k = rng.choice(probes) if probes and rng.random() < 0.18 else rng.choice(keys)
     if name == "Open":
-        return (name, rng.choice(keys), gen_prog(rng), rng.choice(["buf", "raw"]))
-    return (name, rng.choice(keys))
+        return (name, k, gen_prog(rng), rng.choice(modes))
+    return (name, k)
 
 
 def ref_file(data: bytes, prog) -> Tuple[Any, ...]:
@@ -324,15 +373,43 @@ def foreign_coq(F: List[Tuple[str, bytes]]) -> str:
     return "[" + "; ".join(f"({cstr(k)}, {cstr(v.decode('latin-1'))})" for k, v in F) + "]"
 
 
+_BUCKET_SEQ = itertools.count(1)
+
+
+def fresh_bucket() -> str:
+    """A bucket name no earlier evaluation of this process has used.  Every evaluation of a case gets its own, so that
+    whatever a defective library keeps OUTSIDE the store (keyed by bucket / key names) cannot leak from one case into the
+    next one -- a reported case then fails on its own, in a fresh process too (its replay).  Inside one case all stores
+    share the name: that is where such state must not show."""
+    return f"bucket{next(_BUCKET_SEQ)}"
+
+
+def store_of(h: int) -> int:
+    """Handles 0,1 are two backend instances over store 0; handles 2,3 two instances over store 1, ...: SEPARATE
+    stores (another endpoint / another warehouse directory) that use the same bucket, prefix and key names."""
+    return h // 2
+
+
 def run_local(ctx, ops: List[Tuple[Any, ...]], hs: Optional[List[int]] = None) -> List[Tuple[Any, ...]]:
-    """hs[i] = which backend INSTANCE (handle) issues operation i; all instances share one directory."""
+    """hs[i] = which backend INSTANCE (handle) issues operation i; the instances of one store share one directory.
+    An instance is created when its handle is first used (so some are created in the middle of a history)."""
     from datashard.storage_backend import LocalStorageBackend
-    root = tempfile.mkdtemp(prefix="loc-", dir=ctx.scratch)
+    roots: Dict[int, str] = {}
+    bes: Dict[int, Any] = {}
+    out = []
     try:
-        bes = [LocalStorageBackend(root) for _ in range(1 + max(hs or [0]))]
-        return [apply_op(bes[hs[i] if hs else 0], op, local_root=root) for i, op in enumerate(ops)]
+        for i, op in enumerate(ops):
+            h = hs[i] if hs else 0
+            st = store_of(h)
+            if st not in roots:
+                roots[st] = tempfile.mkdtemp(prefix="loc-", dir=ctx.scratch)
+            if h not in bes:
+                bes[h] = LocalStorageBackend(roots[st])
+            out.append(apply_op(bes[h], op, local_root=roots[st]))
+        return out
     finally:
-        shutil.rmtree(root, ignore_errors=True)
+        for r in roots.values():
+            shutil.rmtree(r, ignore_errors=True)
 
 
 def req_tuple(r: Dict[str, Any]) -> Tuple[Any, ...]:
@@ -342,20 +419,40 @@ def req_tuple(r: Dict[str, Any]) -> Tuple[Any, ...]:
 
 
 def run_s3(ops: List[Tuple[Any, ...]], raw_prefix: str, foreign: List[Tuple[str, bytes]], page_size: int = 2, hs: Optional[List[int]] = None):
-    """hs[i] = which S3StorageBackend instance issues operation i; all instances share one bucket and prefix."""
+    """hs[i] = which S3StorageBackend instance issues operation i; the instances of one store share one client;
+    every store is its own FakeS3 with the SAME bucket name, prefix and foreign objects.  An instance is created
+    when its handle is first used.  Returns the observations and the first store (all stores' dumps in .dumps)."""
     from harness.lib.fakes3 import FakeS3, make_s3_backend
-    s3 = FakeS3(page_size=page_size)
-    for k, v in foreign:
-        s3.seed(k, v)
-    bes = [make_s3_backend(s3, prefix=raw_prefix) for _ in range(1 + max(hs or [0]))]
+    stores: Dict[int, Any] = {}
+    bes: Dict[int, Any] = {}
+    bname = fresh_bucket()
+
+    def store(st: int) -> Any:
+        if st not in stores:
+            c = FakeS3(buckets=(bname,), page_size=page_size)
+            for k, v in foreign:
+                c.seed(k, v)
+            stores[st] = c
+        return stores[st]
+
+    first = store(0)
     out = []
     traces: List[List[Tuple[Any, ...]]] = []
     bad_ranges: List[Dict[str, Any]] = []
     for i, op in enumerate(ops):
-        s3.clear_log()
+        h = hs[i] if hs else 0
+        s3 = store(store_of(h))
+        if h not in bes:
+            bes[h] = make_s3_backend(s3, bucket=bname, prefix=raw_prefix)
+        for c in stores.values():
+            c.clear_log()
         before = s3.dump() if op[0] == "Open" else None
-        out.append(apply_op(bes[hs[i] if hs else 0], op))
+        out.append(apply_op(bes[h], op))
         traces.append([req_tuple(r) for r in s3.log])
+        for st2, c in stores.items():
+            if c is not s3 and c.log:
+                # an operation on one store must not talk to another one
+                bad_ranges.append({"index": i, "key": None, "range": None, "object_size": None, "wrong_store": st2})
         if before is not None:
             # "requesting only in-range bytes": every ranged GET names an object that exists, within its size
             for r in s3.log:
@@ -364,18 +461,20 @@ def run_s3(ops: List[Tuple[Any, ...]], raw_prefix: str, foreign: List[Tuple[str,
                     size = len(before[r["Key"]]) if r["Key"] in before else None
                     if size is None or not (0 <= a <= b < size):
                         bad_ranges.append({"index": i, "key": r["Key"], "range": [a, b], "object_size": size})
-    s3.traces = traces  # type: ignore[attr-defined]
-    s3.bad_ranges = bad_ranges  # type: ignore[attr-defined]
-    return out, s3
+    first.traces = traces  # type: ignore[attr-defined]
+    first.bad_ranges = bad_ranges  # type: ignore[attr-defined]
+    first.dumps = {st: c.dump() for st, c in stores.items()}  # type: ignore[attr-defined]
+    return out, first
 
 
-def spec_oracle(ops: List[Tuple[Any, ...]]) -> List[Tuple[Any, ...]]:
-    """The contract as the property states it, on a dict: exact keys, listings confined to the named directory,
-    a reader that behaves like a file holding the key's CURRENT content.
+def spec_oracle(ops: List[Tuple[Any, ...]], hs: Optional[List[int]] = None) -> List[Tuple[Any, ...]]:
+    """The contract as the property states it, on a dict per store: exact keys, listings confined to the named
+    directory, a reader that behaves like a file holding the key's CURRENT content.
     A leading "/" is the library's table-absolute spelling of the same key ("/data/x.parquet")."""
-    st: Dict[str, bytes] = {}
+    sts: Dict[int, Dict[str, bytes]] = {}
     out: List[Tuple[Any, ...]] = []
-    for op in ops:
+    for i, op in enumerate(ops):
+        st = sts.setdefault(store_of(hs[i]) if hs else 0, {})
         n, p = op[0], op[1].lstrip("/")
         if n in ("Write", "WriteCas"):
             st[p] = op[2]
@@ -409,24 +508,51 @@ PROBE_PROGS = [(("Seek", 0, "SeekEnd"), ("Seek", -1, "SeekCur"), ("ReadInto", 5)
                ()]
 
 
-def gen_handles(rng, n: int) -> List[int]:
-    """Which backend instance issues each operation: one instance throughout, or two instances over the same store
-    (two processes / a writer and a scanner), switching at random."""
-    if rng.random() < 0.5:
+def gen_handles(rng, n: int, stores: bool = True) -> List[int]:
+    """Which backend instance issues each operation: one instance throughout; two instances over the same store
+    (two processes / a writer and a scanner), switching at random; or up to four instances over TWO stores that use
+    the same bucket, prefix and key names (see store_of)."""
+    c = rng.random()
+    if c < 0.4:
         return [0] * n
-    return [rng.randrange(2) for _ in range(n)]
+    if c < 0.7 or not stores:
+        return [rng.randrange(2) for _ in range(n)]
+    return [rng.choice([0, 0, 2, 2, 1, 3]) for _ in range(n)]
+
+
+def gen_two_store_cases(ctx) -> List["Case"]:
+    """Enumerated: the same key written with contents of different lengths in two stores, then sized / opened / read /
+    listed / deleted / overwritten in one store and probed in the other -- nothing learnt from one store (or kept by a
+    backend instance that is gone) may show in the answers about the other."""
+    cases: List[Case] = []
+    keys = ["data/x", "data/y.parquet", "metadata/v1.metadata.json", "x"]
+    for i, k in enumerate(keys):
+        for j, (pfx, F) in enumerate(PREFIXES):
+            if ctx.tier == "quick" and (i + j) % 2:
+                continue
+            a, b, c = CONTENTS[1 + (i + j) % 3], CONTENTS[1 + (i + j + 1) % 3], CONTENTS[(i + j + 2) % 4]
+            pg = PROBE_PROGS[(i + j) % 3]
+            mode = "raw" if (i + j) % 2 else "buf"
+            ops = [("Write", k, a), ("Write", k, b), ("Size", k), ("Size", k), ("Open", k, pg, mode), ("Open", k, pg, mode), ("Read", k), ("Exists", k),
+                   ("Delete", k), ("Size", k), ("Exists", k), ("Read", k), ("Open", k, pg, mode), ("ListDir", ""), ("ListDir", ""),
+                   ("Write", k, c), ("Size", k), ("Size", k), ("Open", k, pg, mode), ("Mtime", k), ("Stream", k), ("Delete", k), ("Size", k), ("Size", k)]
+            hs = [0, 2, 0, 2, 0, 2, 2, 2,
+                  0, 2, 2, 2, 2, 0, 2,
+                  1, 1, 3, 3, 2, 2, 3, 1, 2]
+            cases.append((pfx, F, ops, hs))
+    return cases
 
 
 def gen_domain_cases(ctx) -> List[Case]:
     rng = ctx.rng
-    cases: List[Case] = []
+    cases: List[Case] = gen_two_store_cases(ctx)
     # enumerated: every ordered pair of keys x every directory, a fixed probe sequence
     pairs = list(itertools.product(KEYS, KEYS))
     if ctx.tier == "quick":
         pairs = [p for i, p in enumerate(pairs) if i % 2 == 0]
     for i, (k1, k2) in enumerate(pairs):
         for j, d in enumerate(DIRS):
-            if ctx.tier == "quick" and (i + j) % 2:
+            if ctx.tier == "quick" and (i + j) % 3:
                 continue
             pfx, F = PREFIXES[(i + j) % len(PREFIXES)]
             pg = PROBE_PROGS[(i + j) % len(PROBE_PROGS)]
@@ -435,6 +561,11 @@ def gen_domain_cases(ctx) -> List[Case]:
                    ("Delete", k1), ("ListDir", d), ("Exists", k1), ("Size", k2), ("Read", k1), ("Read", k2), ("Mtime", k1),
                    ("Open", k1, pg, mode), ("Open", k2, pg, mode), ("Stream", k1), ("Stream", k2),
                    ("Write" if (i + j) % 2 else "WriteCas", k2, CONTENTS[(i + 2) % 4]), ("Open", k2, pg, mode), ("ReadTag", k1)]
+            if d and d not in (k1, k2):
+                # the directory name (or a name that is nothing at all) probed as if it were a key: "exact keys only"
+                probe = [("Exists", d), ("Size", d), ("Mtime", d), ("Read", d), ("Open", d, pg, mode), ("Stream", d), ("Delete", d), ("Exists", d)]
+                at = 2 if (i + j) % 3 else len(ops) - 3
+                ops = ops[:at] + probe[(i + j) % 4:] + probe[:(i + j) % 4] + ops[at:]
             cases.append((pfx, F, ops, [0] * len(ops) if (i + j) % 4 else [(x * 7 + i) % 2 for x in range(len(ops))]))
     # random; most operations of a case go to a few "hot" keys, so that one key sees write / overwrite / delete /
     # open / size / read in many orders on the same backend instance(s)
@@ -443,7 +574,7 @@ def gen_domain_cases(ctx) -> List[Case]:
         hot = rng.sample(KEYS, rng.randint(1, 3))
         ops = []
         for _ in range(rng.randint(1, 25)):
-            ops.append(gen_op(rng, hot if rng.random() < 0.7 else KEYS, DIRS))
+            ops.append(gen_op(rng, hot if rng.random() < 0.7 else KEYS, DIRS, probes=PROBE_ONLY))
         cases.append((pfx, F, ops, gen_handles(rng, len(ops))))
     return cases
 
@@ -475,7 +606,7 @@ def judge_domain_case(ctx, pfx: str, F, ops, hs: Optional[List[int]] = None) -> 
     """Implementation-only: local vs S3 vs the dict spec. Returns a failure description or None."""
     lo = run_local(ctx, ops, hs)
     s3o, s3c = run_s3(ops, pfx, F, hs=hs)
-    sp = spec_oracle(ops)
+    sp = spec_oracle(ops, hs)
     i = first_diff(lo, s3o)
     which = "backends-differ"
     if i is None:
@@ -484,7 +615,8 @@ def judge_domain_case(ctx, pfx: str, F, ops, hs: Optional[List[int]] = None) -> 
     if i is None:
         if s3c.bad_ranges:
             br = s3c.bad_ranges[0]
-            return {"which": "range-not-in-object", "index": br["index"], "op": list(ops[br["index"]][:2]), "bad_range": br}
+            return {"which": "request-to-another-store" if br.get("wrong_store") is not None else "range-not-in-object",
+                    "index": br["index"], "op": list(ops[br["index"]][:2]), "bad_range": br}
         return None
     return {"which": which, "index": i, "op": list(ops[i][:2]), "local": lo[i], "s3": s3o[i], "contract": sp[i]}
 
@@ -518,6 +650,8 @@ def shrink_ops(ctx, pfx, F, ops, hs, fails) -> Tuple[List[Tuple[Any, ...]], List
                 break
     if any(h for _, h in cur) and fails([c[0] for c in cur], [0] * len(cur)):
         cur = [(o, 0) for o, _ in cur]
+    elif any(h % 2 for _, h in cur) and fails([c[0] for c in cur], [h - h % 2 for _, h in cur]):
+        cur = [(o, h - h % 2) for o, h in cur]              # one instance per store
     return [c[0] for c in cur], [c[1] for c in cur]
 
 
@@ -564,7 +698,13 @@ def classify_ops_failure(ops, bad: Dict[str, Any]) -> str:
 
 def report_ops_violation(ctx, seen_keys, suffix: str, pfx, F, ops, hs, bad) -> None:
     kind = classify_ops_failure(ops, bad)
-    key = kind + suffix
+    # a failure that needs two stores is its own finding (state kept outside the store and keyed by names only); its
+    # replay is self-contained, while a one-store case can fail through what EARLIER cases of this process left behind
+    sts = sorted({store_of(h) for h in hs})
+    two = len(sts) > 1 and all(
+        judge_domain_case(ctx, pfx, F, [o for o, h in zip(ops, hs) if store_of(h) == st], [h for h in hs if store_of(h) == st]) is None
+        for st in sts)                      # every store's own history is fine in isolation: only the combination fails
+    key = kind + (":two-stores-same-names" if two else "") + suffix
     if key in seen_keys:
         return
     seen_keys.add(key)
@@ -574,8 +714,14 @@ def report_ops_violation(ctx, seen_keys, suffix: str, pfx, F, ops, hs, bad) -> N
         return b is not None and classify_ops_failure(c, b) == kind
 
     small, shs = shrink_ops(ctx, pfx, F, ops, hs, same_failure)
-    bad = judge_domain_case(ctx, pfx, F, small, shs) or {}
-    ctx.violation(key, f"prefix={pfx!r} ops={ops_json(small)} handles={shs}: at op {bad.get('index')} {bad.get('op')} local={bad.get('local')} "
+    bad2 = judge_domain_case(ctx, pfx, F, small, shs)
+    if bad2 is None:
+        # the failure does not repeat: it depended on earlier evaluations in this process; keep the case as found
+        small, shs = list(ops), list(hs)
+        key += ":not-repeatable-in-isolation"
+    else:
+        bad = bad2
+    ctx.violation(key, f"prefix={pfx!r} ops={ops_json(small)} handles={shs} (handle h = instance h over store h//2): at op {bad.get('index')} {bad.get('op')} local={bad.get('local')} "
                        f"s3={bad.get('s3')} contract={bad.get('contract')} {bad.get('bad_range') or ''}",
                   {"kind": "ops", "prefix": pfx, "foreign": [[k, v.decode('latin-1')] for k, v in F], "ops": ops_json(small), "handles": shs,
                    "detail": obs_json(bad)})
@@ -586,7 +732,7 @@ def oracle_backends(ctx, cases: List[Case]) -> Dict[int, Tuple[List, List, List]
     seen_keys: set = set()
     obs: Dict[int, Tuple[List, List, List]] = {}
     nviol = 0
-    nopen = nranged = ntwo = 0
+    nopen = nranged = ntwo = nstores = 0
     for idx, (pfx, F, ops, hs) in enumerate(cases):
         lo = run_local(ctx, ops, hs)
         s3o, s3c = run_s3(ops, pfx, F, hs=hs)
@@ -595,7 +741,8 @@ def oracle_backends(ctx, cases: List[Case]) -> Dict[int, Tuple[List, List, List]
         nopen += sum(1 for o in ops if o[0] == "Open")
         nranged += sum(1 for tr in s3c.traces for r in tr if r[0] == "get_range")
         ntwo += 1 if any(hs) else 0
-        sp = spec_oracle(ops)
+        nstores += 1 if len({store_of(h) for h in hs}) > 1 else 0
+        sp = spec_oracle(ops, hs)
         if lo == s3o == sp and not s3c.bad_ranges:
             continue
         nviol += 1
@@ -607,6 +754,7 @@ def oracle_backends(ctx, cases: List[Case]) -> Dict[int, Tuple[List, List, List]
     ctx.stats["backend_open_seekable_operations"] = nopen
     ctx.stats["backend_open_ranged_gets_checked"] = nranged
     ctx.stats["backend_cases_on_two_instances"] = ntwo
+    ctx.stats["backend_cases_on_two_stores_same_names"] = nstores
     # the same keys spelled table-absolute ("/data/x"), as manifests spell data file paths
     nabs = 0
     for idx, (pfx, F, ops, hs) in enumerate(cases):
@@ -627,50 +775,66 @@ def strip_ranged(tr: List[Tuple[Any, ...]]) -> List[Tuple[Any, ...]]:
 
 
 def corr_backends(ctx, cases: List[Case], impl_obs) -> None:
+    # the model describes ONE store: a case over several stores is compared store by store (the operations of each
+    # store, in order, against a model run of their own -- stores that share names share nothing else)
+    subs: List[Tuple[int, List[int]]] = []          # (case index, indices of the operations of one store)
+    for ci, (_pfx, _F, ops, hs) in enumerate(cases):
+        for st in sorted({store_of(h) for h in hs}):
+            subs.append((ci, [i for i in range(len(ops)) if store_of(hs[i]) == st]))
     exprs = []
-    for pfx, F, ops, _hs in cases:
-        exprs.append(f"case3 {cstr(pfx)} {foreign_coq(F)} [" + "; ".join(op_coq(o, "kk") for o in ops) + "]")
+    for ci, idxs in subs:
+        pfx, F, ops, _hs = cases[ci]
+        exprs.append(f"case3 {cstr(pfx)} {foreign_coq(F)} [" + "; ".join(op_coq(ops[i], "kk") for i in idxs) + "]")
     got = ceval(exprs, chunk=120)
     bad_local, bad_s3, bad_thm = [], [], []
     outside = 0
-    for idx, ((pfx, F, ops, hs), g) in enumerate(zip(cases, got)):
+    for (ci, idxs), g in zip(subs, got):
+        pfx, F, ops, hs = cases[ci]
+        sub_ops = [ops[i] for i in idxs]
         spec_m, local_m, s3_m, wf, pf, fo = g
         spec_m, local_m, s3_m = [model_obs(o) for o in spec_m], [model_obs(o) for o in local_m], [model_obs(o) for o in s3_m]
-        lo, s3o, _tr = impl_obs[idx]
+        lo, s3o = [impl_obs[ci][0][i] for i in idxs], [impl_obs[ci][1][i] for i in idxs]
         if not (wf and pf and fo):
             outside += 1
         elif not (spec_m == local_m == s3_m):
-            bad_thm.append({"prefix": pfx, "ops": ops_json(ops), "note": "model runs differ inside the theorem's domain"})
+            bad_thm.append({"prefix": pfx, "ops": ops_json(sub_ops), "note": "model runs differ inside the theorem's domain"})
         i = first_diff(lo, local_m)
         if i is not None:
-            bad_local.append({"prefix": pfx, "ops": ops_json(ops), "handles": hs, "index": i, "impl": obs_json(lo[i]),
+            bad_local.append({"prefix": pfx, "ops": ops_json(sub_ops), "handles": [hs[x] for x in idxs], "index": i, "impl": obs_json(lo[i]),
                               "model": obs_json(local_m[i]) if i < len(local_m) else None})
         i = first_diff(s3o, s3_m)
         if i is not None:
-            bad_s3.append({"prefix": pfx, "foreign": [k for k, _ in F], "ops": ops_json(ops), "handles": hs, "index": i, "impl": obs_json(s3o[i]),
+            bad_s3.append({"prefix": pfx, "foreign": [k for k, _ in F], "ops": ops_json(sub_ops), "handles": [hs[x] for x in idxs], "index": i, "impl": obs_json(s3o[i]),
                            "model": obs_json(s3_m[i]) if i < len(s3_m) else None})
-    ctx.correspondence("backend-local", len(cases), bad_local)
-    ctx.correspondence("backend-s3", len(cases), bad_s3)
-    ctx.correspondence("backend-theorem-domain", len(cases), bad_thm)
+    ctx.correspondence("backend-local", len(subs), bad_local)
+    ctx.correspondence("backend-s3", len(subs), bad_s3)
+    ctx.correspondence("backend-theorem-domain", len(subs), bad_thm)
     ctx.stats["backend_cases_outside_theorem_domain"] = outside
     # which requests each operation issued, and how many times (with_s3_retry around a consistent store); for an Open
     # on the raw reader also every ranged GET (first, last); through the BufferedReader the ranged GETs depend on
     # CPython's buffering and are judged by the oracle only (in range of the object)
-    exprs = [f"trace_case 2 {cstr(pfx)} {foreign_coq(F)} [" + "; ".join(op_coq(o, "kk") for o in ops) + "]" for pfx, F, ops, _hs in cases]
+    tsubs = subs if ctx.tier != "quick" else [x for n_, x in enumerate(subs) if n_ % 5 < 3]
+    exprs = []
+    for ci, idxs in tsubs:
+        pfx, F, ops, _hs = cases[ci]
+        exprs.append(f"trace_case 2 {cstr(pfx)} {foreign_coq(F)} [" + "; ".join(op_coq(ops[i], "kk") for i in idxs) + "]")
     got = ceval(exprs, chunk=120)
     bad_tr = []
     nreq = 0
-    for idx, ((pfx, F, ops, hs), g) in enumerate(zip(cases, got)):
-        impl_tr = [[tuple(r) for r in tr] for tr in impl_obs[idx][2]]
+    for (ci, idxs), g in zip(tsubs, got):
+        pfx, F, ops, hs = cases[ci]
+        impl_tr = [[tuple(r) for r in impl_obs[ci][2][i]] for i in idxs]
         model_tr = [[model_req(r) for r in tr] for tr in g]
-        for j, o in enumerate(ops):
+        for j, i0 in enumerate(idxs):
+            o = ops[i0]
             if o[0] == "Open" and o[3] == "buf" and j < len(model_tr):
                 impl_tr[j], model_tr[j] = strip_ranged(impl_tr[j]), strip_ranged(model_tr[j])
         nreq += sum(len(x) for x in impl_tr)
         i = first_diff(impl_tr, model_tr)
         if i is not None:
-            bad_tr.append({"prefix": pfx, "ops": ops_json(ops), "handles": hs, "index": i, "impl": impl_tr[i], "model": model_tr[i] if i < len(model_tr) else None})
-    ctx.correspondence("backend-s3-requests", len(cases), bad_tr)
+            bad_tr.append({"prefix": pfx, "ops": ops_json([ops[x] for x in idxs]), "handles": [hs[x] for x in idxs], "index": i, "impl": impl_tr[i],
+                           "model": model_tr[i] if i < len(model_tr) else None})
+    ctx.correspondence("backend-s3-requests", len(tsubs), bad_tr)
     ctx.stats["s3_requests_compared"] = nreq
     if cases:
         ctx.sample({"backend_case": {"prefix": cases[0][0], "ops": ops_json(cases[0][2]), "handles": cases[0][3],
@@ -691,7 +855,7 @@ def corr_raw(ctx) -> None:
     got = ceval(exprs, chunk=120)
     bad = []
     for (pf, ops), g in zip(s3_cases, got):
-        hs = gen_handles(ctx.rng, len(ops))
+        hs = gen_handles(ctx.rng, len(ops), stores=False)
         impl, _ = run_s3(ops, pf[0], pf[1], hs=hs)
         m = [model_obs(o) for o in g]
         i = first_diff(impl, m)
@@ -721,7 +885,7 @@ def corr_raw(ctx) -> None:
                 examples.append({"ops": ops_json(ops[:j + 1]), "local": list(map(str, impl[j])), "s3": list(map(str, s3o[j]))})
     ctx.correspondence("backend-local-raw-strings", len(lcases), bad)
     ctx.stats["contract_differences_outside_canonical_domain"] = {"cases": len(lcases), "differing": differ, "examples": examples,
-        "note": "non-prefix-free keys / directory-like paths: outside the property's 'exact keys' wording, reported not judged"}
+        "note": "WRITTEN keys that are directories of other written keys, empty / '.'-like segments, paths spelled with a trailing '/': outside the canonical domain, counted not judged"}
 
 
 # ======================================================================================== generated kernels
@@ -859,7 +1023,13 @@ def run_reader(f: Any, prog, raw: bool) -> Tuple[List[Any], int]:
                 out.append(("data", bytes(f.readall() if raw else f.read())))
             elif op[0] == "Tell":
                 out.append(("pos", f.tell()))
-        except (ValueError, OSError):
+        except ValueError:
+            out.append(("err",))
+        except OSError:
+            # a local file refuses a negative seek with OSError(EINVAL); an OSError out of a READ is a failure of
+            # the store that survived the retries and propagates to the caller of the program
+            if op[0] != "Seek":
+                raise
             out.append(("err",))
     return out, f.tell()
 
@@ -877,8 +1047,9 @@ class RangeRig:
         from datashard.storage_backend import LocalStorageBackend
         self.size = size
         self.content = content_of(size)
-        self.s3 = FakeS3()
-        self.be = make_s3_backend(self.s3, prefix="t")
+        self.bucket = fresh_bucket()
+        self.s3 = FakeS3(buckets=(self.bucket,))
+        self.be = make_s3_backend(self.s3, bucket=self.bucket, prefix="t")
         self.s3.seed("t/obj", self.content)
         self.root = tempfile.mkdtemp(prefix="rng-", dir=ctx_scratch)
         self.local = LocalStorageBackend(self.root)
@@ -887,7 +1058,7 @@ class RangeRig:
 
     def s3_raw(self):
         from datashard.storage_backend import S3RangeFile
-        return S3RangeFile(self.s3, "bucket", "t/obj", self.size)
+        return S3RangeFile(self.s3, self.bucket, "t/obj", self.size)
 
     def run(self, prog, buffered: bool) -> Dict[str, Any]:
         self.s3.clear_log()
@@ -1169,9 +1340,16 @@ def retry_contract(kinds: str, script: List[Any], res: Any, attempts: int, sleep
 
 
 def retry_cases(ctx) -> List[str]:
+    """All outcome scripts up to length 6 (= max_retries + 1 attempts: everything the loop can do), plus length 7:
+    all of them (thorough) or the four continuations of six transients and a sample (quick) -- a seventh outcome is
+    never consumed."""
     out = []
-    for n in range(1, 8):
+    for n in range(1, 7):
         out += ["".join(t) for t in itertools.product(KINDS, repeat=n)]
+    if ctx.tier == "quick":
+        out += ["TTTTTT" + c for c in KINDS] + ["".join(ctx.rng.choice(KINDS) for _ in range(7)) for _ in range(500)]
+    else:
+        out += ["".join(t) for t in itertools.product(KINDS, repeat=7)]
     return out
 
 
@@ -1242,19 +1420,30 @@ def oracle_and_corr_retry(ctx, vs: VirtualSleep) -> None:
             ctx.violation(f"retry-contract:transient-code-permanent:{c}", f"S3 error code {c} is transient but classified permanent (would not be masked)", {"kind": "code", "code": c})
 
 
+def fault_exc_obs(e: BaseException) -> Tuple[Any, ...]:
+    """Observation of an exception in a run with injected faults: the contract's own errors, or WHICH error surfaced."""
+    if isinstance(e, FileNotFoundError):
+        return ("err", "NotFound")
+    if type(e).__name__ == "CASConflictError":
+        return ("err", "Conflict")
+    return ("raise", exc_coq(e))
+
+
 def run_s3_with_plans(ops, plans, pfx, F) -> Tuple[List[Any], Dict[str, bytes]]:
     """Each operation runs with its own positional fault plan (entry i = fault on the i-th request the
-    operation issues, counting retried requests): faults can land on any request of a multi-request operation."""
+    operation issues, counting retried requests): faults can land on any request of a multi-request operation.
+    A plan entry is None | [when, code-or-exception-name]."""
     from harness.lib.fakes3 import FakeS3, make_s3_backend
-    s3 = FakeS3(page_size=2)
+    bname = fresh_bucket()
+    s3 = FakeS3(buckets=(bname,), page_size=2)
     for k, v in F:
         s3.seed(k, v)
-    be = make_s3_backend(s3, prefix=pfx)
+    be = make_s3_backend(s3, bucket=bname, prefix=pfx)
     out = []
     for op, plan in zip(ops, plans):
         s3.clear_faults()
-        s3.plan = [None if x is None else (x[0], x[1]) for x in plan]
-        out.append(apply_op(be, op))
+        s3.plan = [None if x is None else mk_fault(list(x[:2])) for x in plan]
+        out.append(apply_op(be, op, exc_obs=fault_exc_obs))
     s3.clear_faults()
     return out, s3.dump()
 
@@ -1271,61 +1460,111 @@ def faults_case_fails(ops, plans, pfx, F) -> Optional[Dict[str, Any]]:
             "plan": plans[i] if i is not None else None}
 
 
-def oracle_s3_faults(ctx) -> None:
-    """Transient faults injected into the fake (before / after effect, at ANY request index of an operation,
-    so also on later pages of a listing) within the budget must not change any result."""
+MAX_RETRIES = 5          # what "within the retry budget" means for the oracle (S3ConsistencyHandler's documented default)
+NOT_FOUND_KEY = "retry-contract:not-found-uses-up-budget"
+
+
+def fault_failure_key(ops, plans, bad: Dict[str, Any]) -> str:
+    """Which finding a masking failure is.  One is known of the code as it is (Props/C20.v C20_s3_faulty_masks_refuted):
+    a not-found answer is retried like a transient error and uses up the budget, so a transient fault on request
+    number max_retries+1 of a read / stat / open of a key that holds nothing surfaces instead of the not-found."""
+    i = bad.get("index")
+    if i is not None and bad.get("contract") == ("err", "NotFound") and isinstance(bad.get("with_faults"), tuple) \
+            and bad["with_faults"][0] == "raise" and len(plans[i]) > MAX_RETRIES and plans[i][MAX_RETRIES] is not None:
+        return NOT_FOUND_KEY
+    return "retry-contract:transient-fault-changes-result"
+
+
+def shrink_fault_case(ops, plans, pfx, F, key: str) -> Tuple[List[Any], List[Any]]:
+    """Drop operations (with their plans), then drop faults, keeping the same finding."""
+    def still(c) -> bool:
+        o, pl = [x[0] for x in c], [x[1] for x in c]
+        b = faults_case_fails(o, pl, pfx, F)
+        return b is not None and fault_failure_key(o, pl, b) == key
+
+    cur = list(zip(ops, plans))
+    changed = True
+    while changed:
+        changed = False
+        for i in range(len(cur)):
+            cand = cur[:i] + cur[i + 1:]
+            if cand and still(cand):
+                cur, changed = cand, True
+                break
+        if changed:
+            continue
+        for i, (o, pl) in enumerate(cur):
+            for j, x in enumerate(pl):
+                if x is not None:
+                    cand = cur[:i] + [(o, pl[:j] + [None] + pl[j + 1:])] + cur[i + 1:]
+                    if still(cand):
+                        cur, changed = cand, True
+                        break
+            if changed:
+                break
+    return [c[0] for c in cur], [c[1] for c in cur]
+
+
+FAULT_WEIGHTS = [7, 3, 3, 5, 2, 2, 1, 4, 1, 0, 1]       # no CAS writes: write_file_cas is deliberately not under the retry
+
+
+def gen_transient_plan(rng) -> List[Any]:
+    """At most MAX_RETRIES transient faults (S3 codes or transport exceptions), before or after the effect, at ANY of
+    the first 10 requests of the operation -- also the request that is the last attempt the retry loop makes."""
     from harness.lib.fakes3 import TRANSIENT_CODES
+    plan: List[Any] = [None] * 10
+    for pos in rng.sample(range(10), rng.choice([0, 0, 1, 2, 3, 5])):
+        plan[pos] = [rng.choice(["before", "after"]), rng.choice(TRANSIENT_CODES + ["ConnectionResetError", "EndpointConnectionError"])]
+    return plan
+
+
+def oracle_s3_faults(ctx) -> None:
+    """Transient faults injected into the fake (before / after effect, at ANY request index of an operation, so also on
+    later pages of a listing, on a reader's ranged GETs and on the last attempt the retry loop makes), at most
+    max_retries per operation, must not change any result nor the store."""
     rng = ctx.rng
-    n = 150 if ctx.tier == "quick" else 1500
+    n = 600 if ctx.tier == "quick" else 4000
     nbad = 0
+    seen: set = set()
+    # first the smallest histories: one operation on a key that holds nothing / something, one fault at each request index
+    fixed: List[Tuple[str, Any, List[Any], List[Any]]] = []
+    for name in ("Read", "Size", "Mtime", "Stream", "ReadTag", "Open", "Exists", "Delete", "ListDir"):
+        for present in (False, True):
+            for pos in range(MAX_RETRIES + 1):
+                for when in ("before", "after"):
+                    op: Tuple[Any, ...] = (name, "data/x") if name != "Open" else (name, "data/x", (("ReadInto", 2), ("Tell",)), "raw")
+                    if name == "ListDir":
+                        op = (name, "data")
+                    ops = ([("Write", "data/x", b"xyz1")] if present else []) + [op]
+                    plan: List[Any] = [None] * 10
+                    plan[pos] = [when, "SlowDown" if (pos + len(name)) % 2 else "ConnectionResetError"]
+                    fixed.append(("p", [], ops, ([[None] * 10] if present else []) + [plan]))
+    rnd = []
     for _ in range(n):
         pfx, F = rng.choice(PREFIXES)
         ops = []
         hot = rng.sample(KEYS, 2)
         for _ in range(rng.randint(1, 12)):
-            ops.append(gen_op(rng, hot if rng.random() < 0.6 else KEYS, DIRS, weights=[7, 3, 3, 5, 2, 2, 1, 4, 1, 0, 1]))
-        plans = []
-        for _op in ops:
-            k = rng.choice([0, 0, 1, 2, 3, 5])
-            plan: List[Any] = [None] * 10
-            # a read/stat of a missing key uses all max_retries+1 attempts by itself (FileNotFoundError is retried):
-            # keep its last attempt fault-free, otherwise the fault is not "within the budget"
-            span = 5 if _op[0] in ("Read", "Size", "Mtime", "Open", "Stream", "ReadTag") else 10
-            for pos in rng.sample(range(span), k):
-                plan[pos] = [rng.choice(["before", "after"]), rng.choice(TRANSIENT_CODES)]
-            plans.append(plan)
-        ctx.count(1)
+            ops.append(gen_op(rng, hot if rng.random() < 0.6 else KEYS, DIRS, weights=FAULT_WEIGHTS, probes=PROBE_ONLY))
+        rnd.append((pfx, F, ops, [gen_transient_plan(rng) for _ in ops]))
+    for pfx, F, ops, plans in fixed + rnd:
+        ctx.count(1, ("faults", pfx, repr(ops), repr(plans)))
         bad = faults_case_fails(ops, plans, pfx, F)
-        if bad:
-            nbad += 1
-            if nbad == 1:
-                # shrink: drop operations (with their plans), then drop faults
-                cur = list(zip(ops, plans))
-                changed = True
-                while changed:
-                    changed = False
-                    for i in range(len(cur)):
-                        cand = cur[:i] + cur[i + 1:]
-                        if cand and faults_case_fails([c[0] for c in cand], [c[1] for c in cand], pfx, F):
-                            cur, changed = cand, True
-                            break
-                    if changed:
-                        continue
-                    for i, (o, pl) in enumerate(cur):
-                        for j, x in enumerate(pl):
-                            if x is not None:
-                                pl2 = pl[:j] + [None] + pl[j + 1:]
-                                cand = cur[:i] + [(o, pl2)] + cur[i + 1:]
-                                if faults_case_fails([c[0] for c in cand], [c[1] for c in cand], pfx, F):
-                                    cur, changed = cand, True
-                                    break
-                        if changed:
-                            break
-                sops, splans = [c[0] for c in cur], [c[1] for c in cur]
-                bad = faults_case_fails(sops, splans, pfx, F) or bad
-                ctx.violation("retry-contract:transient-fault-changes-result",
-                              f"transient S3 faults within the retry budget changed a result: prefix={pfx!r} ops={ops_json(sops)} plans={splans}: {bad}",
-                              {"kind": "faults", "prefix": pfx, "foreign": [[k, v.decode('latin-1')] for k, v in F], "ops": ops_json(sops), "plans": splans, "detail": bad})
+        if not bad:
+            continue
+        nbad += 1
+        key = fault_failure_key(ops, plans, bad)
+        if key in seen:
+            continue
+        seen.add(key)
+        sops, splans = shrink_fault_case(ops, plans, pfx, F, key)
+        bad = faults_case_fails(sops, splans, pfx, F) or bad
+        what = ("a not-found answer is retried like a transient error and uses up the retry budget: one transient S3 error on request "
+                f"{MAX_RETRIES + 1} of an operation on a key that holds nothing surfaces instead of FileNotFoundError (the local backend answers not-found)"
+                if key == NOT_FOUND_KEY else "transient S3 faults within the retry budget changed a result")
+        ctx.violation(key, f"{what}: prefix={pfx!r} ops={ops_json(sops)} plans={splans}: {bad}",
+                      {"kind": "faults", "prefix": pfx, "foreign": [[k, v.decode('latin-1')] for k, v in F], "ops": ops_json(sops), "plans": splans,
+                       "detail": obs_json(bad)})
     ctx.stats["s3_fault_sequences_violating"] = nbad
     # a permanent fault surfaces at once: exactly one request
     from harness.lib.fakes3 import FakeS3, PERMANENT_CODES, make_s3_backend
@@ -1344,6 +1583,80 @@ def oracle_s3_faults(ctx) -> None:
     ctx.stats["s3_fault_sequences"] = n
 
 
+def fault_what_coq(what: str) -> str:
+    return {"ConnectionResetError": "POS", "EndpointConnectionError": "PBoto"}.get(what) or f"(PClient {cstr(what)})"
+
+
+def plan_coq(plan: List[Any]) -> str:
+    return "[" + "; ".join("None" if x is None else f"Some ({'true' if x[0] == 'after' else 'false'}, {fault_what_coq(x[1])})" for x in plan) + "]"
+
+
+def model_fres(r: Any) -> Tuple[Any, ...]:
+    if r.name == "PFObs":
+        return model_obs(r.args[0])
+    e = r.args[0]
+    return ("raise", f"({e.name} {cstr(e.args[0])})" if e.args else e.name)
+
+
+def corr_s3_faults(ctx) -> None:
+    """Real S3StorageBackend under positional fault plans vs Model/BackendFault.v run_f: ANY faults (transient and
+    permanent codes, not-found and precondition codes, transport exceptions; before / after the effect; at any request,
+    any number of them), every operation incl. the CAS writer and open_seekable's raw reader: result of every operation
+    (value, contract error, or WHICH exception surfaced) and the final bucket.  Cases whose plans satisfy the masking
+    theorem's hypothesis must, in the model, give the contract's results."""
+    from harness.lib.fakes3 import PERMANENT_CODES, TRANSIENT_CODES
+    rng = ctx.rng
+    n = 220 if ctx.tier == "quick" else 2500
+    cases = []
+    for ci in range(n):
+        pfx, F = rng.choice(PREFIXES)
+        hot = rng.sample(KEYS, 2)
+        ops = [gen_op(rng, hot if rng.random() < 0.6 else KEYS, DIRS, probes=PROBE_ONLY, modes=("raw",)) for _ in range(rng.randint(1, 9))]
+        dens = rng.choice([0.0, 0.1, 0.25, 0.5])
+        plans = []
+        for _op in ops:
+            if ci % 3 == 0:
+                plan = gen_transient_plan(rng)                 # inside / near the masking theorem's domain
+            else:
+                plan = []
+                for _ in range(14):
+                    if rng.random() >= dens:
+                        plan.append(None)
+                        continue
+                    c = rng.random()
+                    what = rng.choice(TRANSIENT_CODES + ["ConnectionResetError", "EndpointConnectionError"]) if c < 0.82 else \
+                        rng.choice(PERMANENT_CODES) if c < 0.9 else rng.choice(["NoSuchKey", "404", "PreconditionFailed", "412", "InvalidRange"])
+                    plan.append([rng.choice(["before", "after"]), what])
+            plans.append(plan)
+        cases.append((pfx, F, ops, plans))
+    exprs = [f"fault_case 2 {cstr(pfx)} {foreign_coq(F)} [" + "; ".join(op_coq(o, "kk") for o in ops) + "] [" + "; ".join(plan_coq(pl) for pl in plans) + "]"
+             for pfx, F, ops, plans in cases]
+    got = ceval(exprs, chunk=60)
+    bad, bad_thm = [], []
+    inside = within = 0
+    for (pfx, F, ops, plans), g in zip(cases, got):
+        rs_m, bucket_m, dom, ok, win, spec_m = g
+        model = [model_fres(r) for r in rs_m]
+        impl, dump = run_s3_with_plans(ops, plans, pfx, F)
+        ctx.count(1, ("corr-faults", pfx, repr(ops), repr(plans)))
+        i = first_diff(impl, model)
+        mb = {k: v.encode("latin-1") for k, v in bucket_m}
+        if i is not None or mb != dump:
+            bad.append({"prefix": pfx, "ops": ops_json(ops), "plans": plans, "index": i, "impl": obs_json(impl[i]) if i is not None else "final bucket differs",
+                        "model": obs_json(model[i]) if i is not None and i < len(model) else None})
+        within += 1 if (dom and win) else 0
+        if dom and ok:
+            inside += 1
+            if model != [model_obs(o) for o in spec_m]:
+                bad_thm.append({"prefix": pfx, "ops": ops_json(ops), "plans": plans, "note": "model run differs from the contract inside the masking theorem's domain"})
+    ctx.correspondence("backend-s3-faults", len(cases), bad)
+    ctx.correspondence("backend-s3-faults-theorem-domain", len(cases), bad_thm)
+    ctx.stats["fault_corr_cases_inside_masking_theorem_domain"] = inside
+    ctx.stats["fault_corr_cases_within_budget"] = within
+    if cases:
+        ctx.sample({"fault_case": {"prefix": cases[0][0], "ops": ops_json(cases[0][2]), "plans": cases[0][3]}})
+
+
 # ======================================================================================== faults inside a paginated listing
 LIST_PAGE = 2
 
@@ -1351,8 +1664,9 @@ LIST_PAGE = 2
 def list_rig(nkeys: int, pfx: str):
     """A directory `data` holding nkeys objects (more than one page), with siblings, on S3 (page size 2) and locally."""
     from harness.lib.fakes3 import FakeS3, make_s3_backend
-    s3 = FakeS3(page_size=LIST_PAGE)
-    be = make_s3_backend(s3, prefix=pfx)
+    bname = fresh_bucket()
+    s3 = FakeS3(buckets=(bname,), page_size=LIST_PAGE)
+    be = make_s3_backend(s3, bucket=bname, prefix=pfx)
     names = [f"data/f{i}.parquet" for i in range(nkeys)]
     for k in names + ["data2/x", "database", "metadata/v1.metadata.json"]:
         be.write_file(k, b"v")
@@ -1558,7 +1872,8 @@ def run(ctx) -> None:
                 "CAS write, read, read+etag, exists, list, delete, size, mtime, open_file, open_seekable + seek/read program of length "
                 "0..5 (buffered or raw reader); each operation issued by one of up to two backend instances over the same store; run on "
                 "LocalStorageBackend, S3StorageBackend over fakes3 and the Coq models; range: all seek/read programs up to a length bound + random ones on sizes 0,1,2,1MiB+1, "
-                "raw and through BufferedReader, against a real local file; retry: all 21844 outcome scripts of length<=7; a case is "
+                "raw and through BufferedReader, against a real local file; retry: all outcome scripts of length<=6 (+ length 7: all / sampled); faults: positional "
+                "fault plans (before / after the effect, any request index) on histories, judged (transient, within budget) and compared with Model/BackendFault.v (any faults); a case is "
                 "distinct by its full (prefix, operation list) / (size, program) / script")
     ctx.trusted_base += [
         "translator/gen_s3.py (Python ast -> Gallina for the S3 string kernels and literal tables; golden AST digests for hand-modelled functions)",
@@ -1568,13 +1883,16 @@ def run(ctx) -> None:
     ]
     ctx.assumptions += [
         "S3 is strongly consistent and answers GET/HEAD of a missing key with NoSuchKey/404 (AWS S3 behaviour since 2020)",
-        "local theorem: no key is a directory of another key; segments non-empty, without '/', not '.' or '..' (C17 covers normalisation)",
-        "exists() is compared on exact keys only, as the property states",
+        "local theorem: no WRITTEN key is a directory of another written key; segments non-empty, without '/', not '.' or '..' (C17 covers normalisation)",
+        "exists() answers for exact keys only, as the property states: a name that is a directory of keys does not exist on either backend; "
+        "the spelling with a trailing '/' (a directory probe) is outside the canonical domain",
+        "injected faults are transport / service errors: a fault carrying a not-found code is a wrong answer of the store, which no client can mask",
+        "the conditional PUT of write_file_cas is not retried by design: histories with CAS writes are judged under faults for fault-free CAS operations only",
         "the object read through S3RangeFile does not change during the read (size fixed at open): a reader lives within one operation of a history",
         "the CAS writer is exercised as used correctly in a sequential history (write_file_cas with the tag read_file_with_etag just returned)",
     ]
     vs = quiet_library()
-    ctx.proofs(THEOREMS, gen_files=["GenS3.v", "GenRange.v"])
+    ctx.proofs(THEOREMS, gen_files=["GenS3.v", "GenRange.v"])   # both kinds of Gen file the C20 models are stated over
     ctx.allow_axioms([])
     # ---- implementation-only oracles (run even when the proofs are broken)
     import time as _time
@@ -1600,6 +1918,7 @@ def run(ctx) -> None:
         phase("corr_kernels", corr_kernels, ctx)
         phase("corr_range", corr_range, ctx)
         phase("corr_paged", corr_paged, ctx)
+        phase("corr_s3_faults", corr_s3_faults, ctx)
     except RuntimeError as e:
         ctx.proof_problems.append("model evaluation failed: " + str(e)[:800])
 
